@@ -19,7 +19,37 @@ class C01(Base):
                    "owned input, AST + complete error list (kind, pos, slice) compared with the model's prediction byte for byte.")
 
     def generate(self, rng, tier):
-        return parsefam.gen_mix(rng, tier)
+        from .. import ftlgen
+        # arbitrarily deep nesting (the quantifier names it): far beyond any machine stack
+        for src in ftlgen.g6_depth(20000):
+            yield parsefam.case(src)
+        for c in parsefam.gen_mix(rng, tier):
+            yield c
+
+    @staticmethod
+    def nesting_depth(src):
+        d = m = 0
+        for ch in src:
+            if ch in "{(":
+                d += 1
+                m = max(m, d)
+            elif ch in "})":
+                d = max(0, d - 1)
+        return m
+
+    def matches_known(self, k, case, impl_obs, why):
+        """F2: unbounded recursion get_placeable <-> get_inline_expression <-> get_call_arguments: stack overflow"""
+        if k.get("id") != "F2":
+            return False
+        if not str(impl_obs).startswith("ABORT"):
+            return False
+        src = unhx(case.split(" ")[1]).decode("utf-8", "replace")
+        return self.nesting_depth(src) >= 1000
+
+    def failure_class(self, case, impl_obs, why):
+        if str(impl_obs).startswith("ABORT"):
+            return "ABORT"
+        return super().failure_class(case, impl_obs, why)
 
     def predicate(self, case, impl_obs):
         bad = super().predicate(case, impl_obs)
@@ -51,7 +81,7 @@ class C01(Base):
         from .. import core
         src = unhx(case.split(" ")[1]).decode("utf-8", "replace")
         chars = list(src)
-        if len(chars) < 2:
+        if len(chars) < 2 or len(chars) > 20000:
             return case
 
         def f(cands):
